@@ -243,7 +243,75 @@ fn snapshot_iteration_underflow() -> Option<String> {
     }
 }
 
+/// run `case` in a child process; report how it ended (a panic inside an extern "C" function aborts the process)
+fn in_child(case: &str) -> Result<String, String> {
+    let exe = std::env::current_exe().unwrap();
+    let out = std::process::Command::new(exe).arg("--child").arg(case).output().unwrap();
+    let stdout = String::from_utf8_lossy(&out.stdout).to_string();
+    if out.status.success() { Ok(stdout) } else {
+        let err = String::from_utf8_lossy(&out.stderr);
+        let first = err.lines().find(|l| l.contains("panicked") || l.contains("abort")).unwrap_or("").to_string();
+        let msg = err.lines().skip_while(|l| !l.contains("panicked")).nth(1).unwrap_or("").to_string();
+        Err(format!("process ended with {:?}: {} {}", out.status, first.trim(), msg.trim()))
+    }
+}
+
+fn capi_child(case: &str) {
+    use biscuit_capi as c;
+    unsafe {
+        match case {
+            "capi_public_key_serialize_secp256r1" => {
+                let seed = [7u8; 32];
+                let kp = c::key_pair_new(seed.as_ptr(), 32, c::SignatureAlgorithm::Secp256r1).unwrap();
+                let pk = c::key_pair_public(Some(&kp)).unwrap();
+                let mut buf = [0u8; 32];   // "expects a 32 byte buffer"
+                let n = c::public_key_serialize(Some(&pk), buf.as_mut_ptr());
+                println!("wrote {}", n);
+            }
+            "capi_public_key_serialize_ed25519" => {
+                let seed = [7u8; 32];
+                let kp = c::key_pair_new(seed.as_ptr(), 32, c::SignatureAlgorithm::Ed25519).unwrap();
+                let pk = c::key_pair_public(Some(&kp)).unwrap();
+                let mut buf = [0u8; 32];
+                let n = c::public_key_serialize(Some(&pk), buf.as_mut_ptr());
+                println!("wrote {}", n);
+            }
+            "capi_serialize_sealed" => {
+                let seed = [7u8; 32];
+                let kp = c::key_pair_new(seed.as_ptr(), 32, c::SignatureAlgorithm::Ed25519).unwrap();
+                let mut b = c::biscuit_builder().unwrap();
+                let fact = std::ffi::CString::new("right(\"file1\", \"read\")").unwrap();
+                c::biscuit_builder_add_fact(Some(&mut b), fact.as_ptr());
+                let t = c::biscuit_builder_build(Some(&b), Some(&kp), seed.as_ptr(), 32).unwrap();
+                let size = c::biscuit_sealed_size(Some(&t));
+                let mut buf = vec![0u8; size];   // a buffer of the size the API reports
+                let n = c::biscuit_serialize_sealed(Some(&t), buf.as_mut_ptr());
+                println!("announced {} wrote {}", size, n);
+            }
+            _ => std::process::exit(2),
+        }
+    }
+}
+
+fn capi_case(case: &str) -> Option<String> {
+    match in_child(case) {
+        Err(e) => Some(format!("{}: {}", case, e)),
+        Ok(out) => {
+            // "writes exactly the number of bytes it announces"
+            if let Some(rest) = out.trim().strip_prefix("announced ") {
+                let v: Vec<&str> = rest.split(" wrote ").collect();
+                if v.len() == 2 && v[0] != v[1] { return Some(format!("{}: announced {} bytes but wrote {}", case, v[0], v[1])); }
+            }
+            None
+        }
+    }
+}
+
 fn main() {
+    if std::env::args().nth(1).as_deref() == Some("--child") {
+        capi_child(&std::env::args().nth(2).unwrap());
+        return;
+    }
     let case = std::env::args().nth(1).unwrap_or_default();
     let w = match case.as_str() {
         "block_index" => block_index(),
@@ -252,6 +320,7 @@ fn main() {
         "schema_version_features" => schema_version_features(),
         "underdeclared_block_accepted" => underdeclared_block_accepted(),
         "iterations_zero_budget" => iterations_zero_budget(),
+        "capi_public_key_serialize_secp256r1" | "capi_public_key_serialize_ed25519" | "capi_serialize_sealed" => capi_case(&case),
         "snapshot_iteration_underflow" => snapshot_iteration_underflow(),
         "facts_over_budget_at_start" => facts_over_budget_at_start(),
         _ => { eprintln!("unknown case {}", case); std::process::exit(2) }
